@@ -42,6 +42,7 @@ def run(ctx, R):
     _c20_extra(F, R)                          # two strings order like the lists they denote: whole code points are compared
     pstr_positions_advance_by_bytes(F, R)
     tail_index_from_the_terminator(F, R)
+    literal_zero_byte_is_not_its_end(F, R)
     R.rule("RF10/RF1: every tag dispatch that names Lis names PStrLoc (and conversely) or is a listed exception")
     n_both = 0
     n_one = 0
@@ -197,6 +198,59 @@ def pstr_positions_advance_by_bytes(F, R):
                      % (short(fn), other, sorted(bytes_locals)), F.where(fn))
     R.floor("locations computed inside a packed string by the counting helpers", n, 3)
 
+
+
+def literal_zero_byte_is_not_its_end(F, R):
+    """compare_pstr_slices reports `TailIndex` for a side as soon as that side has a zero byte (or no byte) at the place where
+    the comparison stopped. For a string in the heap that is the end of a segment. For the literal of a get_partial_string
+    instruction (a Rust &str handed over with as_bytes()) it is either the end of the literal or a NUL character the literal
+    contains: an asserted clause whose head holds a list [a,'\\x0\\'|T] is compiled to the literal "a\\x0\\". A caller that
+    tells the two results apart must therefore ask the literal how much of it is left in every arm that takes the literal's
+    TailIndex; otherwise the NUL ends the literal early and the clause head matches "abcd" and rejects the equal string."""
+    tgt = [p for p in F.items if p.endswith("heap::compare_pstr_slices")]
+    if len(tgt) != 1:
+        raise AnchorLost("compare_pstr_slices (%d)" % len(tgt))
+    n = 0
+    for p in sorted(F.calls):
+        top = re.sub(r"(::\{closure#\d+\})+$", "", p)
+        if p != top or top not in F.items or not F.items[top]["file"].startswith("src/"):
+            continue
+        if not any((c.get("resolved") or c.get("callee")) == tgt[0] for c in F.calls[p]):
+            continue
+        body = F.hir(top)["body"]
+        lits = set()
+        for x in walk(body):
+            if x["k"] == "Call" and (x.get("resolved") or x.get("callee")) == tgt[0] and len(x.get("args", [])) == 2:
+                a = x["args"][1]
+                if a["k"] == "MethodCall" and a["name"] == "as_bytes" and a["recv"]["k"] == "Path" and "local" in a["recv"].get("res", {}):
+                    lits.add(a["recv"]["res"]["local"])
+        if not lits:
+            continue
+        for m in walk(body):
+            if m["k"] != "Match" or m["scrut"]["k"] != "Tup" or len(m["scrut"]["elems"]) != 2:
+                continue
+            if not all("PStrContinuable" in (e.get("ty") or "") for e in m["scrut"]["elems"]):
+                continue
+            for arm in m["arms"]:
+                pt = arm["pat"]
+                if pt["k"] != "PTuple" or len(pt["pats"]) != 2:
+                    continue
+                first, second = pt["pats"]
+                if second["k"] != "PTupleStruct" or not second["res"].get("def", "").endswith("PStrContinuable::TailIndex"):
+                    continue
+                asked = False
+                for y in walk(arm["body"]):
+                    c = y.get("cond") if y["k"] == "If" else (y.get("init") if y["k"] == "LetCond" else None)
+                    if c is None:
+                        continue
+                    if any(z["k"] == "Path" and z.get("res", {}).get("local") in lits for z in walk(c)):
+                        asked = True
+                kind = (first.get("res", {}).get("def", "") or first["k"]).rsplit("::", 1)[-1]
+                n += 1
+                R.ob("C20:pstr-literal:zero-byte-is-not-its-end:%s:heap-%s" % (short(top), kind), asked,
+                     "%s (arm at line %s) takes the literal's TailIndex from compare_pstr_slices as the end of the literal without asking the literal how much of it is "
+                     "left: a NUL inside the literal (an asserted head [a,'\\x0\\'|T]) ends it early" % (short(top), arm["ln"]), F.where(top))
+    R.floor("arms taking the literal's TailIndex", n, 2)
 
 def tail_index_from_the_terminator(F, R):
     """The tail cell of a packed string is found from the location of its terminating zero byte (Heap::pstr_tail_idx). A
